@@ -22,10 +22,10 @@ RULE = (
     "continuous variable; a filter with a parameter; an invalid grid (start>=stop, n_points<1, non-numeric bound, "
     "non-dataclass categories, codes not 0..n-1). The sequence grid construction -> Model(...) -> "
     "get_lcm_function(...) must raise GridInitializationError, ModelInitilizationError or ValueError, never "
-    "another exception and never succeed. (accept) a generated model plus exactly one widening operator that leaves "
+    "another exception and never succeed. (accept) a generated SUPPORTED model plus exactly one widening operator that leaves "
     "C01's supported class (state used only by transitions, single-node continuous state grid, stochastic transition "
     "without dependencies, choice-only filter, filter over a continuous variable, filter through an auxiliary "
-    "function, filters excluding every state in a period, unused choice, single-label discrete state, no choices, "
+    "function, filters excluding every state in a period, a transition into a filter-excluded state, unused choice, single-label discrete state, no choices, "
     "single-node choice grids, none): if grid -> Model -> get_lcm_function all succeed, then solve, "
     "solve_and_simulate and simulate(vf_arr_list=...) with template-conforming parameters and initial states for all "
     "states must return without raising. Non-trivial: reject: >=2 operators; accept: an accepted model with a "
@@ -43,7 +43,7 @@ REJECT_OPS = ["n_periods", "no_utility", "no_next", "state_choice_overlap", "gri
               "non_string_key", "stochastic_continuous_state", "stochastic_continuous_dep", "filter_with_param",
               "invalid_grid"]
 WIDEN_OPS = ["none", "state_only_in_transitions", "single_node_state_grid", "stochastic_no_deps", "choice_only_filter",
-             "filter_on_continuous", "filter_through_aux", "empty_space_in_a_period", "unused_choice",
+             "filter_on_continuous", "filter_through_aux", "empty_space_in_a_period", "transition_into_excluded_state", "unused_choice",
              "single_label_state", "no_choices", "single_node_choice_grids"]
 
 
@@ -51,9 +51,7 @@ WIDEN_OPS = ["none", "state_only_in_transitions", "single_node_state_grid", "sto
 def reject_cases(draw):
     spec = draw(model_specs(PROFILE))
     k = draw(st.sampled_from([1, 2, 2, 3]))
-    r = draw(st.integers(0, len(REJECT_OPS) ** 3 - 1))
-    n = len(REJECT_OPS)
-    ops = list(dict.fromkeys([REJECT_OPS[r % n], REJECT_OPS[(r // n) % n], REJECT_OPS[(r // (n * n)) % n]]))[:k]
+    ops = list(dict.fromkeys([draw(st.sampled_from(REJECT_OPS)) for _ in range(3)]))[:k]
     return {"dir": "reject", "spec": spec.to_json(), "ops": ops,
             "pick": [draw(st.integers(0, 99)) for _ in range(6)]}
 
@@ -61,7 +59,7 @@ def reject_cases(draw):
 @st.composite
 def accept_cases(draw):
     spec = draw(model_specs(PROFILE))
-    return {"dir": "accept", "spec": spec.to_json(), "op": WIDEN_OPS[draw(st.integers(0, 10**6)) % len(WIDEN_OPS)],
+    return {"dir": "accept", "spec": spec.to_json(), "op": draw(st.sampled_from(WIDEN_OPS)),
             "pick": [draw(st.integers(0, 99)) for _ in range(6)], "seed": draw(st.integers(0, 10**6)),
             "n_agents": draw(st.integers(1, 4))}
 
@@ -294,6 +292,24 @@ def widen(spec, op, pick):
         new.functions["extra_filter"] = {"args": [s, "_period"], "body": f"TABXF[{s}, _period]"}
         new.params["extra_filter"] = {}
         return new
+    if op == "transition_into_excluded_state":
+        cand = [x for x in ds if not spec.functions[f"next_{x}"].get("stochastic") and x not in spec.restricted()[0]]
+        if not cand or T < 2:
+            return None
+        st_ = cand[pick[0] % len(cand)]
+        # exclude, from period 1 on, a label that the (table) transition of the state can produce
+        f = spec.functions[f"next_{st_}"]
+        tabname = f["body"].split("[")[0]
+        targets = np.unique(np.asarray(spec.consts[tabname]))
+        j = int(targets[pick[1] % len(targets)])
+        m = np.ones((spec.size(st_), T), dtype=bool)
+        m[j, 1:] = False
+        if not m[:, 1:].any():
+            return None
+        new.consts["TABXF"] = m
+        new.functions["extra_filter"] = {"args": [st_, "_period"], "body": f"TABXF[{st_}, _period]"}
+        new.params["extra_filter"] = {}
+        return new
     if op == "unused_choice":
         if pick[0] % 2:
             new.choices["xunused"] = ("disc", 2)
@@ -364,6 +380,13 @@ def check_accept(case):
     from ..ir import to_lcm_model
 
     spec = Spec.from_json(case["spec"])
+    # the base model must be inside C01's supported class, so that the widening operator is the
+    # only thing that leaves it (otherwise a failure cannot be attributed to a shape)
+    base_ref = Reference(spec)
+    base_ref.solve()
+    ok, why = base_ref.supported(require_feasible=True)
+    if not ok or base_ref.ambiguous:
+        return None, "base_" + (why or "knife_edge"), None
     spec = widen(spec, case["op"], case["pick"])
     if spec is None:
         return None, "op_not_applicable", None
